@@ -112,6 +112,7 @@ func c11Gen(t *rapid.T) C11Case {
 	if chance(t, "proto", 10) {
 		c.Req.Proto = pick(t, "protov", []string{"1.0", "2"})
 	}
+	genHostTLS(t, &c.Req)
 	// pre-set response headers from an outer wrapper
 	for i, n := 0, uniform(t, "npreset", 4); i < n; i++ {
 		k := pick(t, "presetkey", []string{"Vary", "Vary", "X-Pre", "Content-Type", "Access-Control-Allow-Origin", "Access-Control-Expose-Headers", "Set-Cookie", "X-Frame-Options"})
